@@ -113,6 +113,9 @@ type FaultPlan struct {
 	// whose nodes carry their position) to a fault kind: every invocation at
 	// that path fails.
 	FailPath map[string]string
+	// Shared is the one error value returned by every site failing with
+	// FaultShared.
+	Shared *ggql.Error
 }
 
 // Fault kinds for resolver invocations.
@@ -124,6 +127,8 @@ const (
 	FaultBadLeaf    = "bad_leaf"                    // un-coercible leaf value
 	FaultGroupExt   = "error_group_with_extensions" // ggql.Errors whose members are *ggql.Error with extensions
 	FaultNestedGrp  = "nested_error_group"          // ggql.Errors{e, ggql.Errors{e, e}}: three entries
+	FaultShared     = "shared_ggql_error"           // every failing site of the plan returns the SAME *ggql.Error value (an application sentinel)
+	FaultTwinGroup  = "error_group_with_equal_texts" // ggql.Errors of three members, two of them with the same text and different extensions
 	FaultPanic      = "panic"                       // the resolver panics (the caller of ggql recovers): histories only
 	FaultBadList    = "bad_list_elements"           // a [scalar] field returns []interface{}{ok, bad, ok, bad}: two coercion failures in one list
 )
@@ -243,6 +248,19 @@ func (tr *Tracker) enter(typ, field string, args map[string]interface{}, path st
 		f.Members = 3
 		return kind, ggql.Errors{errors.New("injected member 1 " + tag),
 			ggql.Errors{errors.New("injected member 2 " + tag), errors.New("injected member 3 " + tag)}}
+	case FaultShared:
+		if tr.Plan.Shared == nil {
+			tr.Plan.Shared = &ggql.Error{Base: errors.New("injected shared failure #shared#"), Extensions: map[string]interface{}{"code": "ES"}}
+		}
+		f.Tag = "#shared#"
+		return kind, tr.Plan.Shared
+	case FaultTwinGroup:
+		f.Members = 3
+		return kind, ggql.Errors{
+			&ggql.Error{Base: errors.New("injected twin " + tag), Extensions: map[string]interface{}{"code": "E" + strconv.Itoa(tr.N) + "t1"}},
+			&ggql.Error{Base: errors.New("injected twin " + tag), Extensions: map[string]interface{}{"code": "E" + strconv.Itoa(tr.N) + "t2"}},
+			errors.New("injected member 3 " + tag),
+		}
 	case FaultBadList:
 		f.Members = 2
 	}
